@@ -193,6 +193,9 @@ fn run_packets(pk: &mut Pk, stream: &[u8], cuts: &[usize], with_handshake: bool)
         s.handshake();
     }
     let pre = s.frames.len();
+    if pk.episodes % 3 == 1 {
+        s.vary_ip.set(pk.episodes as u64 | 1);
+    }
     s.c_stream(stream, cuts);
     let tls = &mut pk.tls;
     let t0 = std::time::Instant::now();
@@ -254,6 +257,10 @@ fn run_workers(wp: &Wp, pk: &mut Pk, stream: &[u8], cuts: &[usize], with_handsha
         s.handshake();
     }
     let pre = s.frames.len();
+    if pk.episodes % 2 == 1 {
+        // segments of one connection may carry different IPv6 flow labels / IPv4 ids
+        s.vary_ip.set(pk.episodes as u64 | 1);
+    }
     s.c_stream(stream, cuts);
     crate::pool::reset_log(0, 0);
     let crate::pool::Handle::Tls(_, rx) = &wp.h else {
